@@ -56,27 +56,30 @@ def main():
     lons = [loc.lon for loc in locations]
     elevs = [loc.elev for loc in locations]
 
-    fcst = copy.deepcopy(ifile.fcst)
-    obs = copy.deepcopy(ifile.obs)
     if args.axis == 'leadtime':
         axis = 1
     elif args.axis == 'time':
         axis = 0
 
-    if args.w is None:
-        if args.ignore:
-            fcst = np.nancumsum(fcst, axis=axis)
-            obs = np.nancumsum(obs, axis=axis)
-        else:
-            fcst = np.cumsum(fcst, axis=axis)
-            obs = np.cumsum(obs, axis=axis)
+    # A verif file can have observations only or forecasts only. Accumulate the
+    # fields that are there.
+    fields = dict()
+    for name, array in [("fcst", ifile.fcst), ("obs", ifile.obs)]:
+        if array is None:
+            continue
+        array = copy.deepcopy(array)
+        if args.w is None:
+            if args.ignore:
+                array = np.nancumsum(array, axis=axis)
+            else:
+                array = np.cumsum(array, axis=axis)
 
-    elif args.w >= 1:
-        # if args.w % 2 == 0:
-        #     verif.util.error("Window length has to be an odd number")
+        elif args.w >= 1:
+            # if args.w % 2 == 0:
+            #     verif.util.error("Window length has to be an odd number")
 
-        fcst = convolve(fcst, args.w, args.ignore, args.axis)
-        obs = convolve(obs, args.w, args.ignore, args.axis)
+            array = convolve(array, args.w, args.ignore, args.axis)
+        fields[name] = array
 
     file = netCDF4.Dataset(args.ofile, 'w', format="NETCDF4")
     file.createDimension("leadtime", len(ifile.leadtimes))
@@ -88,14 +91,15 @@ def main():
     vLat = file.createVariable("lat", "f4", ("location",))
     vLon = file.createVariable("lon", "f4", ("location",))
     vElev = file.createVariable("altitude", "f4", ("location",))
-    vfcst = file.createVariable("fcst", "f4", ("time", "leadtime", "location"))
-    vobs =  file.createVariable("obs", "f4", ("time", "leadtime", "location"))
+    vfields = dict()
+    for name in fields:
+        vfields[name] = file.createVariable(name, "f4", ("time", "leadtime", "location"))
     file.long_name = ifile.variable.name
     file.units = unit = ifile.variable.units.replace("$", "")
     file.Convensions = "verif_1.0.0"
 
-    vobs[:] = obs
-    vfcst[:] = fcst
+    for name in fields:
+        vfields[name][:] = fields[name]
     vTime[:] = times
     vOffset[:] = leadtimes
     vLocation[:] = locationids
